@@ -21,8 +21,9 @@ def run(ctx, rep) -> None:
     rep.rule = ('(A) TLC exhaustive on MC_Timers_pos (+ negative config); (B) seeded random timer scenarios on the real operator judged '
                 'by Trace_Timers; non-trivial = a trace with >= 3 runs and one of: a failed run, a run longer than the interval, an '
                 'essential change, a stop; distinct by abstract trace')
-    r = tlc.run('MC_Timers', 'MC_Timers_pos.cfg', timeout=3000)
-    rep.add_tlc('MC_Timers_pos', r)
+    mc = 'MC_Timers_q.cfg' if ctx.quick else 'MC_Timers_pos.cfg'       # incl. the object leaving / re-entering the filters (respawn)
+    r = tlc.run('MC_Timers', mc, timeout=3000)
+    rep.add_tlc(mc[:-4], r)
     if not r.ok:
         rep.violation(f'Timers design check: {r.violated} after {[s["action"] for s in r.trace][-12:]}', files={'tlc.out': r.out[-100000:]})
     r = tlc.run('MC_Timers', 'MC_Timers_neg.cfg')
